@@ -61,6 +61,7 @@ def h_src_eof(ctx, NMAX):
     for r in range(2 * NMAX + 3):
         what = ctx.pick(f"r{r}", ["TICK", "ACK"] if phase == 1 else ["TICK"])
         if what == "ACK":
+            w.tick(ctx.int(f"dta{r}", 0, 2))  # possibly together with a timer expiry
             o = sc.ack_eof()
             hsrc.end_if_other_property(ctx, o)
             ctx.covered("peer_resumed")
@@ -145,6 +146,7 @@ def h_dst_fin(ctx, NMAX):
     for r in range(NMAX + 2):
         what = ctx.pick(f"r{r}", ["TICK", "ACK"])
         if what == "ACK":
+            w.tick(ctx.int(f"dta{r}", 0, 2))  # possibly together with a timer expiry
             o = sc.ack_fin()
             hdst.end_if_other_property(ctx, o)
             ctx.covered("peer_resumed")
@@ -200,6 +202,7 @@ def h_dst_nak(ctx, NMAX):
     for r in range(2 * NMAX + 2):
         what = ctx.pick(f"r{r}", ["TICK"] if data_given else ["TICK", "DATA"])
         if what == "DATA":
+            w.tick(ctx.int(f"dtd{r}", 0, 2))  # possibly together with a timer expiry
             o = sc.grid_fd(0)
             hdst.end_if_other_property(ctx, o)
             data_given = True
